@@ -3,7 +3,10 @@ from vpa import evaluators as E
 from vpa.core import show, Site, simplify, subterms, trait_of_impl
 from vpa.pattern import match, find
 
-EXPLANATION = """Structural obligations behind C03 (completeness and kind of every rigid-motion API): every position of the result passes through
+EXPLANATION = """Structural obligations behind C03: (POSDOT, crate-wide) the coordinates of a stored / given position enter a dot product with a
+direction only inside a difference of projections along that same direction (n.p - n.q compared or subtracted, n.p - d with the
+offset stored beside the same normal, a running extremum of n.p over points) or as that offset itself - a lone n.p compared with a
+constant depends on where the origin is; (completeness and kind of every rigid-motion API): every position of the result passes through
 a FULL application of the transform parameter (nalgebra `&Isometry * Point`, transform_point, TriMesh::transform_vertices, or a
 crate function already classified), every unit normal / direction through the rotation-only application (`&Isometry * Unit`),
 exactly once, never through `.rotation` / `.translation` / `.inverse()` projections of the transform; every non-geometric
@@ -12,7 +15,7 @@ Mul<SurfacePoint> impls, PointCloud::transform (points AND normals, element-wise
 (representative point normal*d, rebuilt through From<&SurfacePoint3>), Curve2/Curve3::transformed_by, Segment2::transform_by,
 transform_points, the TransformBy impls, Distance2::to_3d / Distance3::to_2d (a, b full; direction rotation-only);
 SurfacePoint::reversed keeps the point and negates the normal."""
-NOT_DECIDED = "invariance of any measurement (distances, deviations, fits) under a change of frame: numerical; a frame-dependence taint analysis was rejected because correct code uses raw coordinates that cancel"
+NOT_DECIDED = "invariance of any measurement (distances, deviations, fits) under a change of frame: numerical; a general frame-dependence taint analysis was rejected because correct code uses raw coordinates that cancel - only the narrow POSDOT form (a lone projection n.p of a stored position) is decided"
 ASSUMPTIONS = ["nalgebra: &Isometry * OPoint applies rotation and translation; &Isometry * Unit<Vector> / * Vector applies the rotation only"]
 
 
@@ -64,6 +67,8 @@ def no_projections(cx, b, tparam, key):
 
 
 def run(cx):
+    # crate-wide: a position enters a dot product only inside a difference of projections (or as the plane offset)
+    E.posdot(cx, floor=5)
     SP = 'common::surface_point::SurfacePoint'
     b = cx.fn(f'{SP}::transformed')
     if b:
